@@ -113,3 +113,34 @@ Theorem C08_nonvacuous :
   acked ex_w = [1; 2; 3; 4; 5; 6; 8; 9]%N /\ pruned ex_w = [1; 2]%N /\ reading (files ex_w) = [3; 4; 5; 6; 8; 9]%N.
 Proof. exact ex_nonvacuous. Qed.
 Print Assumptions C08_nonvacuous.
+
+(* ---- what the check's verdict means (RunFileSinkSound.v): [Run_FileSink.mismatches cases = []], evaluated by vm_compute on every
+   shard, holds exactly when every case's observed history is an execution of the model (where the case is compared with
+   the model), satisfies the statements of C08/C15 evaluated on the observations after every observed call, and its
+   directory event log obeys stamp order and oldest-first retention ---- *)
+From Verif Require Import Run_FileSink RunFileSinkSound.
+Theorem C08_verdict_is_model_execution : forall cs,
+  mismatches cs = [] <->
+  Forall (fun k =>
+    dirlog_ok (c_dirlog k) /\
+    (c_model k = true -> accepted (c_cfg k) (w_init (c_fids k) (c_dm k) (c_k0 k)) (c_steps k)) /\
+    oracles_ok (c_cfg k) (c_writers k) (c_counts k) (c_dm k) false false (w_init (c_fids k) (c_dm k) (c_k0 k)) [] 0%N (c_steps k)) cs.
+Proof. exact mismatches_nil_iff. Qed.
+Print Assumptions C08_verdict_is_model_execution.
+(* SIGKILL cases: only whole consecutive events ending at the last acknowledged one or the next, and the directory is the
+   model's state after the last acknowledged call or (existentially) one of the crash points of the next call *)
+Theorem C08_kill_verdict_is_crash_point : forall ks, kill_mismatches ks = [] <-> Forall kill_ok ks.
+Proof. exact kill_mismatches_nil_iff. Qed.
+Print Assumptions C08_kill_verdict_is_crash_point.
+(* failing write(2): the whole events in the files are exactly the acknowledged ones *)
+Theorem C08_fsize_verdict_is_ack_present : forall ls, fsize_mismatches ls = [] <-> Forall fsize_ok ls.
+Proof. exact fsize_mismatches_nil_iff. Qed.
+Print Assumptions C08_fsize_verdict_is_ack_present.
+(* hence the theorems above speak about the observed directory: after an accepted history the files the harness read are
+   the model's acknowledged sequence minus a prefix *)
+Theorem C08_observed_reading_is_acked_suffix : forall c fids dm k0 (l : list (op * option sobs)) o ob,
+  special c = false -> fault_free (map fst l ++ [o]) -> clock_ok k0 (map fst l ++ [o]) ->
+  accepted c (w_init fids dm k0) (map (fun p => (XOp (fst p), snd p)) l ++ [(XOp o, Some ob)]) ->
+  exists k, obs_reading ob = skipn k (acked (run c fids dm k0 (map fst l ++ [o]))).
+Proof. exact observed_reading_is_acked_suffix. Qed.
+Print Assumptions C08_observed_reading_is_acked_suffix.
